@@ -230,7 +230,9 @@ struct World {
   Future<int> hi[kMaxH];
   Future<std::vector<Future<int>>> hv[kMaxH];
   Future<size_t> hs[kMaxH];
-  int hkind[kMaxH] = {0}; // 0 empty, 1 int, 2 vector, 3 size_t
+  Future<std::tuple<Future<int>>> ht1[kMaxH];
+  Future<std::tuple<Future<int>, Future<int>>> ht2[kMaxH];
+  int hkind[kMaxH] = {0}; // 0 empty, 1 int, 2 vector, 3 size_t, 4 / 5 tuple of 1 / 2 futures
   std::atomic<int> go{0};
   std::atomic<int> done{0};
   int nDrivers = 0;
@@ -256,6 +258,19 @@ static Future<int> mkOn(Sched& s, int id, int v, long long a, long long d) {
       s,
       asyncP(a),
       deferP(d));
+}
+
+// the same through dispenso::async(schedulable, policy, f): `policy` is the bitmask the caller hands to async()
+template <class Sched>
+static Future<int> mkAsync(Sched&& s, int id, int v, long long a, long long d) {
+  std::launch policy = static_cast<std::launch>(static_cast<int>(asyncP(a)) | static_cast<int>(deferP(d)));
+  return dispenso::async(std::forward<Sched>(s), policy, [id, v]() -> int {
+    ctl::note("begin", id);
+    ctl::note("end", id);
+    if (v <= -100)
+      throw DrvExc{v};
+    return v;
+  });
 }
 
 template <class Sched>
@@ -301,6 +316,12 @@ static void withHandle(World* w, int h, Fn fn) {
     case 3:
       fn(w->hs[h]);
       break;
+    case 4:
+      fn(w->ht1[h]);
+      break;
+    case 5:
+      fn(w->ht2[h]);
+      break;
     default:
       fprintf(stderr, "ERROR drv_future: handle %d is empty\n", h);
       _exit(3);
@@ -317,6 +338,23 @@ static void doOp(World* w, const Op& o, int ip) {
     long long a = o.get('a'), d = o.get('d', 1);
     tlsPlan.assign(1, f);
     Future<int> r;
+    if (o.get('x') != 0) { // created through dispenso::async()
+      switch (s) {
+        case 3:
+          r = mkAsync(w->nti, f, v, a, d);
+          break;
+        case 4:
+          r = mkAsync(*w->pool, f, v, a, d);
+          break;
+        case 5:
+          r = mkAsync(*w->ts5, f, v, a, d);
+          break;
+        default:
+          r = mkAsync(*w->ts6, f, v, a, d);
+          break;
+      }
+      s = 0;
+    }
     switch (s) {
       case 1:
         r = mkOn(w->mq, f, v, a, d);
@@ -355,6 +393,17 @@ static void doOp(World* w, const Op& o, int ip) {
       ctl::note("slot", ip, reinterpret_cast<const void*>(&r) == reinterpret_cast<const void*>(w->hv[h].impl_->resultBuf_) ? 1 : 0);
       for (size_t i = 0; i < r.size(); ++i)
         ctl::note("res", (long long)i + 1, idOfImpl(r[i].impl_));
+    } else if (k == 4) {
+      const std::tuple<Future<int>>& r = w->ht1[h].get();
+      ret = 1;
+      ctl::note("slot", ip, reinterpret_cast<const void*>(&r) == reinterpret_cast<const void*>(w->ht1[h].impl_->resultBuf_) ? 1 : 0);
+      ctl::note("res", 1, idOfImpl(std::get<0>(r).impl_));
+    } else if (k == 5) {
+      const std::tuple<Future<int>, Future<int>>& r = w->ht2[h].get();
+      ret = 2;
+      ctl::note("slot", ip, reinterpret_cast<const void*>(&r) == reinterpret_cast<const void*>(w->ht2[h].impl_->resultBuf_) ? 1 : 0);
+      ctl::note("res", 1, idOfImpl(std::get<0>(r).impl_));
+      ctl::note("res", 2, idOfImpl(std::get<1>(r).impl_));
     } else {
       const size_t& r = w->hs[h].get();
       ret = r == SIZE_MAX ? -1 : (long long)r;
@@ -376,8 +425,12 @@ static void doOp(World* w, const Op& o, int ip) {
       w->hi[h2] = w->hi[h];
     else if (k == 2)
       w->hv[h2] = w->hv[h];
-    else
+    else if (k == 3)
       w->hs[h2] = w->hs[h];
+    else if (k == 4)
+      w->ht1[h2] = w->ht1[h];
+    else
+      w->ht2[h2] = w->ht2[h];
     w->hkind[h2] = k;
   } else if (op == "del") {
     int k = w->hkind[h];
@@ -386,8 +439,12 @@ static void doOp(World* w, const Op& o, int ip) {
       w->hi[h] = Future<int>();
     else if (k == 2)
       w->hv[h] = Future<std::vector<Future<int>>>();
-    else
+    else if (k == 3)
       w->hs[h] = Future<size_t>();
+    else if (k == 4)
+      w->ht1[h] = Future<std::tuple<Future<int>>>();
+    else
+      w->ht2[h] = Future<std::tuple<Future<int>, Future<int>>>();
   } else if (op == "then") {
     int g = (int)o.get('g'), s = (int)o.get('s');
     long long a = o.get('a'), d = o.get('d', 1);
@@ -436,7 +493,13 @@ static void doOp(World* w, const Op& o, int ip) {
     tlsPlanComb = R;
     HIt b{in.data()}, e{in.data() + in.size()};
     size_t n = in.size();
-    if (all) {
+    if (all && tuple && n == 1 && t == 0) {
+      w->ht1[h] = dispenso::when_all(*in[0]);
+      w->hkind[h] = 4;
+    } else if (all && tuple && n == 2 && t == 0) {
+      w->ht2[h] = dispenso::when_all(*in[0], *in[1]);
+      w->hkind[h] = 5;
+    } else if (all) {
       Future<std::vector<Future<int>>> r;
       if (t == 0)
         r = dispenso::when_all(b, e);
@@ -650,6 +713,16 @@ static int runFree(const drv::Args& a) {
     };
     Future<int> f;
     tlsPlan.assign(1, 1);
+    int viaAsync = sched != 0 && ctl::splitmix(rng) % 2 == 0; // dispenso::async(schedulable, policy, f) instead of the constructor
+    std::launch policy = static_cast<std::launch>(static_cast<int>(std::launch::async) | static_cast<int>(deferP(defer)));
+    if (viaAsync) {
+      if (sched == 1)
+        f = dispenso::async(pool, policy, decltype(fn)(fn));
+      else if (sched == 2)
+        f = dispenso::async(tset, policy, decltype(fn)(fn));
+      else
+        f = dispenso::async(nti, policy, decltype(fn)(fn));
+    } else
     switch (sched) {
       case 0:
         f = Future<int>(decltype(fn)(fn), mq, dispenso::kNotAsync, deferP(defer));
@@ -677,7 +750,7 @@ static int runFree(const drv::Args& a) {
       bool until = ctl::splitmix(rng) % 3 == 0;
       long long delay = (long long)(ctl::splitmix(rng) % 4) * 100;
       Future<int> copy = f;
-      c.addThread("w" + std::to_string(wi + 1), [&, req, until, delay, r, wi, copy, defer, sched]() {
+      c.addThread("w" + std::to_string(wi + 1), [&, req, until, delay, r, wi, copy, defer, sched, viaAsync]() {
         tlsWaiter = wi + 1;
         sleepUs(delay);
         int startedBefore = started.load(std::memory_order_seq_cst);
@@ -706,6 +779,7 @@ static int runFree(const drv::Args& a) {
         j.kv("inl", inl);
         j.kv("pre", startedBefore);
         j.kv("sched", sched);
+        j.kv("async", viaAsync);
         j.kv("round", r);
         ctl::freeEvent(tr, "Obs", j.s);
         tlsWaiter = 0;
